@@ -1973,3 +1973,187 @@ func r08_5(c *Ctx) {
 		}
 	}
 }
+
+// R18.6: the GC clock (ValidReplayer.lastGC) advances only when it is initialised (IsZero) or
+// when a collection has just run; otherwise frequent Puts would postpone collection forever.
+func init() {
+	register(&Rule{ID: "R18.6", Title: "lastGC advances only on initialisation or right after a collection", Floor: 2, Run: r18_6})
+	for _, id := range []string{"C18", "C09"} {
+		if p := properties[id]; p != nil {
+			p.Rules = append(p.Rules, "R18.6")
+			p.Explanation += " R18.6 ValidReplayer.lastGC is assigned only this Put's now, and only when it was zero or right after doGC ran under shouldGC (frequent Puts must not postpone the collection forever); shouldGC compares now-lastGC with GCInterval."
+		}
+	}
+}
+
+func r18_6(c *Ctx) {
+	P := c.P
+	fn := P.Fn("(*ValidReplayer).Put")
+	if fn == nil {
+		c.anchor("(*ValidReplayer).Put")
+		return
+	}
+	var now *ssa.Call
+	eachInstr(fn, func(in ssa.Instruction) {
+		if call, ok := in.(*ssa.Call); ok && call.Call.StaticCallee() == nil && !call.Call.IsInvoke() {
+			if _, ok := isFieldLoad(call.Call.Value, "ValidReplayer", "Now"); ok {
+				now = call
+			}
+		}
+	})
+	var gcCall, should *ssa.Call
+	eachInstr(fn, func(in ssa.Instruction) {
+		if call, ok := isModCall(in, "(*ValidReplayer).doGC"); ok {
+			gcCall = call
+		}
+		if call, ok := isModCall(in, "(*ValidReplayer).shouldGC"); ok {
+			should = call
+		}
+	})
+	n := 0
+	for _, a := range P.fieldAccesses("ValidReplayer", "lastGC") {
+		if a.Kind != "write" {
+			continue
+		}
+		n++
+		st := a.Use.(*ssa.Store)
+		name := fnLabel(a.Fn) + ":write(lastGC)"
+		if a.Fn != fn {
+			c.bad(name, P.ipos(st), "lastGC is written outside ValidReplayer.Put")
+			continue
+		}
+		valOK := now != nil && st.Val == ssa.Value(now)
+		isZero := guardedByBool(fn, st.Block(), func(v ssa.Value) bool {
+			call, ok := isTimeCall(v, "IsZero")
+			if !ok {
+				return false
+			}
+			_, ok = isFieldLoad(call.Call.Args[0], "ValidReplayer", "lastGC")
+			return ok
+		}, true)
+		afterGC := gcCall != nil && should != nil && instrDominates(gcCall, st) && guardedByBool(fn, st.Block(), func(v ssa.Value) bool { return v == ssa.Value(should) }, true)
+		c.check(valOK && (isZero || afterGC), name, P.ipos(st), "lastGC = now only when it was zero or right after a collection", "lastGC is advanced on a path where no collection ran (and it was not the initialisation): Puts arriving more often than GCInterval postpone collection forever, expired messages stay reachable")
+	}
+	if n == 0 {
+		c.bad(fnLabel(fn)+":write(lastGC)", P.pos(fn.Pos()), "lastGC is never advanced: every Put after GCInterval runs a collection")
+	}
+	// doGC under shouldGC
+	c.check(gcCall != nil && should != nil && guardedByBool(fn, gcCall.Block(), func(v ssa.Value) bool { return v == ssa.Value(should) }, true), fnLabel(fn)+":gc-when-due", P.pos(fn.Pos()), "Put collects when shouldGC says it is due", "Put does not run doGC under shouldGC")
+	// shouldGC: GCInterval > 0 && now.Sub(lastGC) >= GCInterval
+	if sg := P.Fn("(*ValidReplayer).shouldGC"); sg != nil {
+		cmp := false
+		eachInstr(sg, func(in ssa.Instruction) {
+			b, ok := in.(*ssa.BinOp)
+			if !ok || (b.Op != token.GEQ && b.Op != token.GTR) {
+				return
+			}
+			sub, ok := isTimeCall(b.X, "Sub")
+			if !ok {
+				return
+			}
+			_, l := isFieldLoad(sub.Call.Args[1], "ValidReplayer", "lastGC")
+			_, iv := isFieldLoad(b.Y, "ValidReplayer", "GCInterval")
+			if l && iv && sub.Call.Args[0] == ssa.Value(sg.Params[1]) {
+				cmp = true
+			}
+		})
+		c.check(cmp, fnLabel(sg)+":due-test", P.pos(sg.Pos()), "a collection is due when now - lastGC >= GCInterval", "shouldGC does not compare now - lastGC with GCInterval")
+	} else {
+		c.anchor("(*ValidReplayer).shouldGC")
+	}
+}
+
+// R18.7: enqueue moves the read index (head) only when it has just overwritten the
+// oldest element of a full ring. Moving it otherwise drops buffered events.
+func init() {
+	register(&Rule{ID: "R18.7", Title: "enqueue moves head only on the overwrite path (ring full)", Floor: 1, Run: r18_7})
+	for _, id := range []string{"C08", "C09", "C04"} {
+		if p := properties[id]; p != nil {
+			p.Rules = append(p.Rules, "R18.7")
+			p.Explanation += " R18.7 enqueue writes q.head only on paths on which count == len(buf) held (the element it overwrote was the oldest); on every other path the read index is untouched, so no buffered event is dropped by a Put (path enumeration with the boolean flag resolved per path)."
+		}
+	}
+}
+
+func r18_7(c *Ctx) {
+	P := c.P
+	fn := queueMethod(P, "enqueue")
+	if fn == nil {
+		c.anchor("queue.enqueue")
+		return
+	}
+	if len(loopsOf(fn)) > 0 {
+		c.undecided(fnLabel(fn)+":head-moves", P.pos(fn.Pos()), "enqueue contains a loop; path enumeration does not apply")
+		return
+	}
+	isLenBuf := func(v ssa.Value) bool {
+		call, ok := v.(*ssa.Call)
+		if !ok {
+			return false
+		}
+		b, ok := call.Call.Value.(*ssa.Builtin)
+		if !ok || b.Name() != "len" {
+			return false
+		}
+		_, ok = isFieldLoad(call.Call.Args[0], "queue", "buf")
+		return ok
+	}
+	full := map[cfgEdge]bool{}
+	for _, ifi := range ifsIn(fn) {
+		cnd := decodeIf(ifi)
+		if cnd.Y == nil {
+			continue
+		}
+		_, xc := isFieldLoad(cnd.X, "queue", "count")
+		_, yc := isFieldLoad(cnd.Y, "queue", "count")
+		if (xc && isLenBuf(cnd.Y)) || (yc && isLenBuf(cnd.X)) {
+			switch cnd.Op {
+			case token.EQL, token.GEQ:
+				full[cfgEdge{ifi.Block(), cnd.succWhen(true)}] = true
+			case token.NEQ, token.LSS:
+				full[cfgEdge{ifi.Block(), cnd.succWhen(false)}] = true
+			}
+		}
+	}
+	name := fnLabel(fn) + ":head-moves"
+	if len(full) == 0 {
+		c.bad(name, P.pos(fn.Pos()), "enqueue never tests whether the ring is full (count == len(buf))")
+		return
+	}
+	type res struct{ bad bool }
+	stores := map[*ssa.Store]*res{}
+	okEnum := enumeratePaths(fn, 4096, func(in ssa.Instruction, st *pathState) {
+		s, ok := in.(*ssa.Store)
+		if !ok {
+			return
+		}
+		if _, ok := isFieldSel(s.Addr, "queue", "head"); !ok {
+			return
+		}
+		r := stores[s]
+		if r == nil {
+			r = &res{}
+			stores[s] = r
+		}
+		passed := false
+		for e := range full {
+			if st.Edges[e] {
+				passed = true
+			}
+		}
+		if !passed {
+			r.bad = true
+		}
+	})
+	if !okEnum {
+		c.undecided(name, P.pos(fn.Pos()), "too many paths")
+		return
+	}
+	if len(stores) == 0 {
+		c.bad(name, P.pos(fn.Pos()), "enqueue never moves head: a full ring would keep reporting overwritten elements as its oldest")
+		return
+	}
+	for s, r := range stores {
+		c.check(!r.bad, name, P.ipos(s), "head is written only on paths where the ring was full", "enqueue writes q.head on a path on which the ring was not full: the read index jumps and buffered (unexpired, not yet evicted) events become unreachable for replay")
+	}
+}
